@@ -60,6 +60,7 @@ if hasattr(sys, "set_int_max_str_digits"):
     sys.set_int_max_str_digits(0)  # exact rationals of long runs have many digits
 
 MSG_CAP = 20000
+MODEL_MAX_ITERS = 400  # the exact model is run on (and compared over) at most this many loop iterations per case
 FRAC_MAX_POINTS = 150  # the exact (Fraction) run of tune_centroid is made when the proven bound is below this
 POS_TOL = 1e-9
 MARGIN_TOL = 1000  # margins travel scaled by 1e12: 1000 = 1e-9
@@ -729,6 +730,24 @@ def _pw_linear(spec):
     return True
 
 
+def _truncated(obs):
+    """The observation restricted to the first MODEL_MAX_ITERS loop iterations (still running afterwards)."""
+    if len(obs["readings"]) <= MODEL_MAX_ITERS:
+        return obs
+    o = dict(obs)
+    o["status"] = "cap"
+    o["pos"] = obs["pos"][:MODEL_MAX_ITERS]
+    if "kinds" in o:
+        o["kinds"] = obs["kinds"][:MODEL_MAX_ITERS]
+        o["steps"] = obs["steps"][:MODEL_MAX_ITERS]
+    if "park" in o:
+        o["park"] = None
+    o["readings"] = obs["readings"][:MODEL_MAX_ITERS]
+    res_note = o.get("note", "")
+    o["note"] = (res_note + " compared over the first %d iterations" % MODEL_MAX_ITERS).strip()
+    return o
+
+
 def _brief(obs):
     o = {k: v for k, v in obs.items() if k != "readings"}
     for k in ("pos", "kinds", "steps"):
@@ -772,9 +791,15 @@ def run(ctx, model=True):
             for sig, what in bad:
                 res.violations.append(C.Violation(sig, what, case))
     if model:
-        replies = C.lean_batch(DRIVER, [_request(c, o["readings"]) for c, _, o in items])
+        import subprocess
+
+        try:
+            replies = C.lean_batch(DRIVER, [_request(c, o["readings"][:MODEL_MAX_ITERS]) for c, _, o in items])
+        except subprocess.TimeoutExpired as e:
+            raise C.DriverError(f"driver {DRIVER} timed out: {e}") from e
         for (case, mode, obs), rep in zip(items, replies):
             m = json.loads(rep)
+            obs = _truncated(obs)
             if "error" in m:
                 res.disagreements.append({"case": case, "model": m, "impl": _brief(obs)})
                 continue
